@@ -449,8 +449,7 @@ RULE_BM = ("Berlekamp-Massey (ops bm / bm_big, K+O in both profiles): every sequ
 MODELLED = ["matrix/intsparse.rs berlekamp_massey (lines 578-701) and berlekamp_massey_big::<U256, U512> (706-800): Ymq/Model/BerlekampMassey.lean, "
             "line by line over lists of words, Montgomery closures = the Mg64/Mg64Inv models of C06/C07/C08, inv_mod::<4> = the Gcd model of C09; "
             "all 11 explicit and all implicit panic sites (indexing, unwrap, assert, debug_assert, u64/u128/U256 overflow, unreachable) are `none`"]
-UNMODELLED = ["the callers of berlekamp_massey (SparseMat::_detp4 reads charpoly[size] of the returned vector, ker_pbig evaluates it by Horner): "
-              "oracle only (ops im_det_sparse, im_detp4, im_ker_p256 of props/c19.py); the other instantiations of berlekamp_massey_big "
+UNMODELLED = ["the callers of berlekamp_massey are modelled separately (props/c19_wied.py: _detp4, detz, ker_p256); the other instantiations of berlekamp_massey_big "
               "(<u64,u128>, <u128,U256>, <BUint<3>,BUint<6>>) differ only in the overflow bound of subp",
               "release-profile wrapping outside the proved domain (p >= 2^63: the u128 sum of dotp and mg_redc results above p) is not modelled; "
               "the model follows the checked profile there"]
